@@ -343,3 +343,78 @@ Definition gen_record_summary (f : Z) (ebs : list eb_desc) (hv : bool) (ps : Z) 
   layout_summary (gen_record_layout f ebs hv ps).
 Definition spec_record_summary (f : Z) (ebs : list eb_desc) (hv : bool) (ps : Z) : result (Z * Z) :=
   layout_summary (spec_record_layout f ebs hv ps).
+
+(* ------------------------------------------------------------------------------------------ *)
+(* payloads of the other known records: laspy's ctypes structures / struct format as layouts   *)
+(* ------------------------------------------------------------------------------------------ *)
+Definition gen_scalar_field (r : string * Z * Z * string * Z * Z) : option (kind * nat * string) :=
+  let '(n, _, size, code, esz, cnt) := r in
+  if negb (cnt =? 1) || negb (size =? esz) then None
+  else if (String.eqb code "B" && (esz =? 1)) || (String.eqb code "H" && (esz =? 2)) || (String.eqb code "I" && (esz =? 4))
+          || (String.eqb code "Q" && (esz =? 8)) then Some (KUInt, Z.to_nat esz, n)
+  else if String.eqb code "d" && (esz =? 8) then Some (KF64, 8%nat, n)
+  else None.
+
+Fixpoint offsets_packed_to (total start : Z) (rows : list (string * Z * Z * string * Z * Z)) : bool :=
+  match rows with
+  | [] => start =? total
+  | (_, off, size, _, _, _) :: r => (off =? start) && offsets_packed_to total (start + size) r
+  end.
+
+Fixpoint find_struct (name : string) (l : list (string * list (string * Z * Z * string * Z * Z) * Z))
+  : option (list (string * Z * Z * string * Z * Z) * Z) :=
+  match l with
+  | [] => None
+  | (n, rows, sz) :: r => if String.eqb n name then Some (rows, sz) else find_struct name r
+  end.
+
+Definition gen_known_struct (cname : string) : option layout :=
+  match find_struct cname known_structs with
+  | Some (rows, sz) => if offsets_packed_to sz 0 rows then opt_all (map gen_scalar_field rows) else None
+  | None => None
+  end.
+
+(* struct format "<B15s": little endian, one unsigned char, one char[15]; parse_record_data unpacks with the format the class
+   packs with, and keeps every record *)
+Definition gen_lookup_record : option layout :=
+  if String.eqb lookup_struct_format "<B15s" && (lookup_struct_size =? 16) && String.eqb lookup_parse_format lookup_struct_format
+     && lookup_parse_keeps_every_record
+  then Some [(KUInt, 1%nat, "class_number"); (KStr, 15%nat, "description")] else None.
+
+Definition gen_known_payload (name : string) : option layout :=
+  if String.eqb name "lookup" then gen_lookup_record
+  else if String.eqb name "waveform" then gen_known_struct "WaveformPacketStruct"
+  else if String.eqb name "geokeys_header" then gen_known_struct "GeoKeysHeaderStructs"
+  else if String.eqb name "geokey" then gen_known_struct "GeoKeyEntryStruct"
+  else None.
+
+Definition spec_dec_known (name : string) (bytes : list Z) : result (assoc * list Z) :=
+  match spec_known_payload name with
+  | Some L => if len bytes =? layout_width L then Ok (dec_fields L bytes) else Err EShort
+  | None => Err EValue
+  end.
+Definition spec_enc_known (name : string) (vals : list value) : result (list Z) :=
+  match spec_known_payload name with Some L => enc_fields L vals | None => Err EValue end.
+Definition spec_known_names (name : string) : list string :=
+  match spec_known_payload name with Some L => layout_names L | None => [] end.
+
+(* the classification lookup table as laspy keeps it: a dict class number -> description (in insertion order; assigning a class
+   that is already there keeps its place), filled record by record by parse_record_data, serialised record by record *)
+Definition lookup_table := list (Z * list Z).
+Fixpoint dict_set (t : lookup_table) (k : Z) (v : list Z) : lookup_table :=
+  match t with
+  | [] => [(k, v)]
+  | (k', v') :: r => if k' =? k then (k', v) :: r else (k', v') :: dict_set r k v
+  end.
+Fixpoint lookup_parse_from (fuel : nat) (bytes : list Z) (t : lookup_table) : option lookup_table :=
+  match bytes with
+  | [] => Some t
+  | c :: _ =>
+      match fuel with
+      | O => None
+      | S f => if Nat.ltb (length bytes) 16 then None      (* struct.error: the payload is not a whole number of records *)
+               else lookup_parse_from f (skipn 16 bytes) (dict_set t c (cut_nul (firstn 15 (skipn 1 bytes))))
+      end
+  end.
+Definition lookup_parse (bytes : list Z) : option lookup_table := lookup_parse_from (S (length bytes)) bytes [].
+Definition lookup_bytes (t : lookup_table) : list Z := flat_map (fun e => fst e :: null_pad (snd e) 15 false) t.
